@@ -372,6 +372,17 @@ def is_print_only(options: CMDOptions) -> bool:
     return True
 
 def run_impl(options: CMDOptions, builddir: str) -> int:
+    if is_print_only(options) or not os.path.isdir(os.path.join(builddir, 'meson-private')):
+        # Nothing is written.
+        return _run_impl(options, builddir)
+    # Changing options rewrites coredata, the command line file and the
+    # introspection data: not while another Meson process uses the directory.
+    with mesonlib.DirectoryLock(builddir, 'meson-private/meson.lock',
+                                mesonlib.DirectoryLockAction.FAIL,
+                                'Some other Meson process is already using this build directory. Exiting.'):
+        return _run_impl(options, builddir)
+
+def _run_impl(options: CMDOptions, builddir: str) -> int:
     print_only = is_print_only(options)
     c = None
     try:
